@@ -8,108 +8,144 @@
 name: str_index.empty
 define: VP=str, U_INDEX, U_EMPTY
 src: str.c, obj.c
+native: str
+native_includes: str.c
 enforce: spif_str_index
 */
 /*@unit
 name: str_index.nonempty
 define: VP=str, U_INDEX, U_NONEMPTY
 src: str.c, obj.c
+native: str
+native_includes: str.c
 enforce: spif_str_index
 */
 /*@unit
 name: str_rindex.empty
 define: VP=str, U_RINDEX, U_EMPTY
 src: str.c, obj.c
+native: str
+native_includes: str.c
 enforce: spif_str_rindex
 */
 /*@unit
 name: str_rindex.nonempty
 define: VP=str, U_RINDEX, U_NONEMPTY
 src: str.c, obj.c
+native: str
+native_includes: str.c
 enforce: spif_str_rindex
 */
 /*@unit
 name: str_find.empty
 define: VP=str, U_FIND, U_EMPTY, U_OTHER_NONEMPTY
 src: str.c, obj.c
+native: str
+native_includes: str.c
 enforce: spif_str_find
 */
 /*@unit
 name: str_find.nonempty
 define: VP=str, U_FIND, U_NONEMPTY, U_OTHER_NONEMPTY
 src: str.c, obj.c
+native: str
+native_includes: str.c
 enforce: spif_str_find
 */
 /*@unit
 name: str_find.other_empty
 define: VP=str, U_FIND, U_NONEMPTY, U_OTHER_EMPTY
 src: str.c, obj.c
+native: str
+native_includes: str.c
 enforce: spif_str_find
 */
 /*@unit
 name: str_find_from_ptr.empty
 define: VP=str, U_FIND_FROM_PTR, U_EMPTY
 src: str.c, obj.c
+native: str
+native_includes: str.c
 enforce: spif_str_find_from_ptr
 */
 /*@unit
 name: str_find_from_ptr.nonempty
 define: VP=str, U_FIND_FROM_PTR, U_NONEMPTY
 src: str.c, obj.c
+native: str
+native_includes: str.c
 enforce: spif_str_find_from_ptr
 */
 /*@unit
 name: ustr_index.empty
 define: VP=ustr, U_INDEX, U_EMPTY
 src: ustr.c, obj.c
+native: str
+native_includes: ustr.c
 enforce: spif_ustr_index
 */
 /*@unit
 name: ustr_index.nonempty
 define: VP=ustr, U_INDEX, U_NONEMPTY
 src: ustr.c, obj.c
+native: str
+native_includes: ustr.c
 enforce: spif_ustr_index
 */
 /*@unit
 name: ustr_rindex.empty
 define: VP=ustr, U_RINDEX, U_EMPTY
 src: ustr.c, obj.c
+native: str
+native_includes: ustr.c
 enforce: spif_ustr_rindex
 */
 /*@unit
 name: ustr_rindex.nonempty
 define: VP=ustr, U_RINDEX, U_NONEMPTY
 src: ustr.c, obj.c
+native: str
+native_includes: ustr.c
 enforce: spif_ustr_rindex
 */
 /*@unit
 name: ustr_find.empty
 define: VP=ustr, U_FIND, U_EMPTY, U_OTHER_NONEMPTY
 src: ustr.c, obj.c
+native: str
+native_includes: ustr.c
 enforce: spif_ustr_find
 */
 /*@unit
 name: ustr_find.nonempty
 define: VP=ustr, U_FIND, U_NONEMPTY, U_OTHER_NONEMPTY
 src: ustr.c, obj.c
+native: str
+native_includes: ustr.c
 enforce: spif_ustr_find
 */
 /*@unit
 name: ustr_find.other_empty
 define: VP=ustr, U_FIND, U_NONEMPTY, U_OTHER_EMPTY
 src: ustr.c, obj.c
+native: str
+native_includes: ustr.c
 enforce: spif_ustr_find
 */
 /*@unit
 name: ustr_find_from_ptr.empty
 define: VP=ustr, U_FIND_FROM_PTR, U_EMPTY
 src: ustr.c, obj.c
+native: str
+native_includes: ustr.c
 enforce: spif_ustr_find_from_ptr
 */
 /*@unit
 name: ustr_find_from_ptr.nonempty
 define: VP=ustr, U_FIND_FROM_PTR, U_NONEMPTY
 src: ustr.c, obj.c
+native: str
+native_includes: ustr.c
 enforce: spif_ustr_find_from_ptr
 */
 #include "str.h"
